@@ -33,6 +33,9 @@ def predicates(ctx, chain, label, seed, workers):
     """chain = list of Sims (segments between restarts), in order"""
     seen = {}
     ordinal = 0
+    # after a restart that re-issued recorded jobs, the restart file's cstep + |locked| under-counts the
+    # jobs issued (re-issued jobs took fresh ordinals): a LATER restart then re-uses ordinals (open finding)
+    reissued_before = 0
     rep0 = {"history": label, "params": getattr(chain[-1], "params", None), "ctxseed": ctx.seed}
     for seg, sim in enumerate(chain):
         main_ids = set()
@@ -46,7 +49,8 @@ def predicates(ctx, chain, label, seed, workers):
                 if sid in seen:
                     o = seen[sid]
                     both_after_restart = seg > 0 and o[0] == seg
-                    sig = ("C07:restart:multiworker-stream-collision" if seg > 0 and workers > 1
+                    sig = ("C07:restart-chain:ordinal-reused-after-reissue" if seg > 1 and reissued_before > 0
+                           else "C07:restart:multiworker-stream-collision" if seg > 0 and workers > 1
                            else "C07:restart:stream-reused-after-restart" if seg > 0
                            else "C07:stream-shared")
                     ctx.fail(sig, f"{kind} stream {sid} of job {k} (segment {seg}) was already given to job {o[1]} "
@@ -58,7 +62,9 @@ def predicates(ctx, chain, label, seed, workers):
             want_move = f"{seed}:{ordinal + k},{j}"
             want_eng = f"{seed}:{ordinal + k},{j},0"
             if rgen != want_move or rgeneng != want_eng:
-                if seg > 0 and rgen.split(":")[0] != str(seed):
+                if seg > 1 and reissued_before > 0 and rgen.split(":")[0] == str(seed):
+                    sig = "C07:restart-chain:ordinal-reused-after-reissue"
+                elif seg > 0 and rgen.split(":")[0] != str(seed):
                     sig = "C07:restart:entropy-not-seed"
                 elif seg > 0:
                     sig = "C07:restart:ordinal-not-continued"
@@ -67,6 +73,10 @@ def predicates(ctx, chain, label, seed, workers):
                 ctx.fail(sig, f"job {k} of segment {seg} ensemble {ens}: streams {rgen} / {rgeneng}, expected "
                               f"{want_move} / {want_eng}", dict(rep0, segment=seg, job_in_segment=k))
         ordinal += njobs
+        # jobs re-issued in THIS segment (locked0 entries at its start) matter for the NEXT restart
+        n_re = sum(1 for line in sim.lines if line.startswith("locked0 "))
+        if seg > 0:
+            reissued_before += min(n_re, njobs)
         if sim.error is not None:
             ctx.fail("C07:sampler-raised", f"{type(sim.error).__name__}: {sim.error}", rep0)
     return len(seen)
@@ -102,8 +112,7 @@ def run(ctx):
                 plans.append((n_ens, w, steps, seed, False, ()))
                 a = rng.randint(2, steps - 6)
                 plans.append((n_ens, w, steps, seed, bool(seed % 2), (a,)))
-                if not ctx.quick or w == 1:
-                    plans.append((n_ens, w, steps, seed, False, (a, rng.randint(a + 2, steps - 2))))
+                plans.append((n_ens, w, steps, seed, False, (a, rng.randint(a + 2, steps - 2))))
     outs = []
     for p in plans:
         one(ctx, p, ctx._driver_ok, outs)
@@ -111,6 +120,12 @@ def run(ctx):
         T.compare(ctx, sm, ctx.driver(sm.lines), label)
     if outs:
         ctx.sample({"history": outs[-1][1], "streams_of_last_segment": job_streams(outs[-1][0])[:6]})
+    # the engine half: every in-process draw of every engine class is made on the job's engine stream
+    try:
+        from props.c16 import run_c07_engine_streams
+        run_c07_engine_streams(ctx)
+    except ImportError as e:  # pragma: no cover
+        ctx.extra["c07_engine_streams"] = f"not available: {e}"
     ctx.assumptions += [
         "numpy: streams with different (entropy, spawn_key) are independent, equal ones identical (not modelled)",
         "identity of a stream = (SeedSequence.entropy, spawn_key) read from the generator objects inside md_items",
